@@ -23,6 +23,14 @@ stmt       := 'set' ID 'to' pexpr | 'if' pexpr 'then' stmt* ['else' stmt*] 'end'
             | 'debug' pexpr | 'loop' stmt* 'end' | 'break' | 'continue'
 pexpr      := the tokens up to the next statement keyword / EOF, parsed by the Pratt parser
 ```
+Differences from the grammar printed in LanguageDetails.md (the code is what is modelled): bodies may be
+empty (`find all`, `()`, `{} = x`, `set p to pattern`) where the document asks for at least one
+operation; `with` needs at least one item where the document allows none, and also takes
+`caseless STRING`; loops take the `fewest` / `named` suffix and `in` items may be `caseless STRING` or
+a range `STRING to STRING`, none of which the document lists; `exactly N e` does not take `named`
+(the Go code looks for it at the wrong index); the documented `FUNCTION` keyword does not exist;
+an unmatched `)` ends a process expression and the rest of it is ignored.
+
 Results: `ok node rest | err | fuel`.  The recursive functions take the same fuel argument as
 the model (`Lemmas/GrammarMono.lean` shows the result does not depend on it once it suffices).
 Process expressions reuse `Parser.pratt` (it already works on a filtered token list).
